@@ -930,4 +930,31 @@ theorem ramseyWitnessCore_opb (G : SimpleG) (k : Nat) (sb : Bool) (α : Assign) 
     (ramseyWitnessCore G k sb).toOPB.holds α = (ramseyWitnessCore G k sb).holds α :=
   Formula.toOPB_holds α _ (ramseyWitnessCore_wf G k sb)
 
+/-! ## T-C02.4, option `nontrivial` of `GraphIsomorphism` (defect D30: the option is never read) -/
+
+theorem graphIsomorphismOpt_ignores_flag (G1 G2 : SimpleG) (b : Bool) :
+    graphIsomorphismOpt G1 G2 b = graphIsomorphism G1 G2 := rfl
+
+/-- THE DOCUMENTED STATEMENT for the option ("nontrivial: bool — forbid identical mapping"): with
+`nontrivial = true` the formula holds exactly under the encodings of the isomorphisms that move some vertex.
+It is FALSE of the code (counterexample below); the statement without the option is `graphIsomorphism_holds`. -/
+def IsoNontrivialDocumented (G1 G2 : SimpleG) : Prop :=
+  ∀ α, (graphIsomorphismOpt G1 G2 true).holds α = true ↔
+    (IsoSpec G1 G2 α ∧ ∃ u, V G1.n u ∧ ¬ Rel 1 G2.n α u u)
+
+/-- full statement: `∀ G1 G2 b, …`; proved for `nontrivial = false` -/
+theorem graphIsomorphismOpt_holds_partial (G1 G2 : SimpleG) (h1 : GoodGraph G1) (h2 : GoodGraph G2) (α : Assign) :
+    (graphIsomorphismOpt G1 G2 false).holds α = true ↔ IsoSpec G1 G2 α :=
+  graphIsomorphism_holds G1 G2 h1 h2 α
+
+/-- counterexample: the graph with one vertex; the identical mapping `x_{1,1}` satisfies the formula built with
+`nontrivial = true` (checked by `decide`) although it moves no vertex -/
+theorem graphIsomorphism_nontrivial_documented_false : ¬ IsoNontrivialDocumented oneVertex oneVertex := by
+  intro h
+  have hsat : (graphIsomorphismOpt oneVertex oneVertex true).holds (encode 1 1 1 [1]) = true := by decide
+  obtain ⟨_, u, ⟨a, b⟩, hu⟩ := (h _).1 hsat
+  have : u = 1 := by simp only [oneVertex] at b; omega
+  subst this
+  exact hu (by unfold Rel; decide)
+
 end Cnfgen.C02
